@@ -50,6 +50,8 @@ Definition with_mem (S : setup) (m : option nat) : setup :=
 
 Lemma mirror_ext f m low low' : (forall a b, low a b == low' a b) -> mirror f m low == mirror f m low'.
 Proof. intros H. unfold mirror. destruct (m <? f)%nat; [apply H|]. destruct (f <? m)%nat; [apply H|reflexivity]. Qed.
+Lemma mirror_incl_ext f m low low' : (forall a b, low a b == low' a b) -> mirror_incl f m low == mirror_incl f m low'.
+Proof. intros H. unfold mirror_incl. destruct (m <=? f)%nat; apply H. Qed.
 
 Lemma twoway_low_mem S m t1 t2 gf gm : mem_ok (s_mem S) -> mem_ok m ->
   twoway_low (with_mem S m) t1 t2 gf gm == twoway_low S t1 t2 gf gm.
@@ -73,7 +75,8 @@ Theorem chunk_invariant S m geno geno1 t1 t2 : mem_ok (s_mem S) -> mem_ok m ->
   (forall f2 m2 f1 m1, fourway_entry (with_mem S m) geno t1 t2 f2 m2 f1 m1 == fourway_entry S geno t1 t2 f2 m2 f1 m1) /\
   (forall f ml, dihybrid_entry (with_mem S m) geno geno1 t1 t2 f ml == dihybrid_entry S geno geno1 t1 t2 f ml).
 Proof.
-  intros H1 H2. repeat split; intros; unfold twoway_entry, threeway_entry, fourway_entry, dihybrid_entry; apply mirror_ext; intros.
+  intros H1 H2. repeat split; intros; unfold twoway_entry, threeway_entry, fourway_entry, dihybrid_entry;
+    (apply mirror_ext || apply mirror_incl_ext); intros.
   - now apply twoway_low_mem. - now apply threeway_low_mem. - now apply quad_low_mem. - now apply quad_low_mem.
 Qed.
 
@@ -130,12 +133,18 @@ Proof.
   unfold mirror. destruct (Nat.ltb_spec m f), (Nat.ltb_spec f m); try lia; reflexivity.
 Qed.
 
+Lemma mirror_incl_sym f m low : mirror_incl f m low == mirror_incl m f low.
+Proof.
+  unfold mirror_incl. destruct (Nat.leb_spec m f), (Nat.leb_spec f m); try lia; try reflexivity.
+  assert (f = m) by lia. subst. reflexivity.
+Qed.
+
 Theorem symmetric S geno geno1 t1 t2 :
   (forall f m, twoway_entry S geno t1 t2 f m == twoway_entry S geno t1 t2 m f) /\
   (forall r f m, threeway_entry S geno t1 t2 r f m == threeway_entry S geno t1 t2 r m f) /\
   (forall f2 m2 f1 m1, fourway_entry S geno t1 t2 f2 m2 f1 m1 == fourway_entry S geno t1 t2 f2 m2 m1 f1) /\
   (forall f m, dihybrid_entry S geno geno1 t1 t2 f m == dihybrid_entry S geno geno1 t1 t2 m f).
-Proof. repeat split; intros; apply mirror_sym. Qed.
+Proof. repeat split; intros; (apply mirror_sym || apply mirror_incl_sym). Qed.
 
 (** * identical parents: the value is zero *)
 Lemma eff_same u tr g i : eff u tr g g i == 0.
@@ -165,6 +174,9 @@ Proof. rewrite quad_low_block. rewrite blocked_zero; [ring|]. intros. unfold qua
 Lemma mirror_zero f m low : (forall a b, (a = f /\ b = m) \/ (a = m /\ b = f) -> low a b == 0) -> mirror f m low == 0.
 Proof. intros H. unfold mirror. destruct (m <? f)%nat; [apply H; auto|]. destruct (f <? m)%nat; [apply H; auto|reflexivity]. Qed.
 
+Lemma mirror_incl_zero f m low : (forall a b, (a = f /\ b = m) \/ (a = m /\ b = f) -> low a b == 0) -> mirror_incl f m low == 0.
+Proof. intros H. unfold mirror_incl. destruct (m <=? f)%nat; apply H; auto. Qed.
+
 Theorem zero_for_identical_parents S geno geno1 t1 t2 :
   (forall f m, row geno f = row geno m -> twoway_entry S geno t1 t2 f m == 0) /\
   (forall r f m, row geno f = row geno r -> row geno m = row geno r -> threeway_entry S geno t1 t2 r f m == 0) /\
@@ -174,33 +186,42 @@ Theorem zero_for_identical_parents S geno geno1 t1 t2 :
 Proof.
   repeat split; intros.
   - unfold twoway_entry. apply mirror_zero. intros a b [[-> ->]|[-> ->]]; rewrite H; apply twoway_low_same.
-  - unfold threeway_entry. apply mirror_zero. intros a b [[-> ->]|[-> ->]]; rewrite H, H0; apply threeway_low_same.
-  - unfold fourway_entry. apply mirror_zero. intros a b [[-> ->]|[-> ->]]; rewrite H, H0, H1; apply quad_low_same.
-  - unfold dihybrid_entry. apply mirror_zero. intros a b [[-> ->]|[-> ->]]; rewrite H, H0, H1; apply quad_low_same.
+  - unfold threeway_entry. apply mirror_incl_zero. intros a b [[-> ->]|[-> ->]]; rewrite H, H0; apply threeway_low_same.
+  - unfold fourway_entry. apply mirror_incl_zero. intros a b [[-> ->]|[-> ->]]; rewrite H, H0, H1; apply quad_low_same.
+  - unfold dihybrid_entry. apply mirror_incl_zero. intros a b [[-> ->]|[-> ->]]; rewrite H, H0, H1; apply quad_low_same.
 Qed.
 
-(** * equivariance under reordering of the taxa *)
-Lemma mirror_perm (pi : nat -> nat) f m low low' : (f = m <-> pi f = pi m) ->
-  (forall a b, low a b == low b a) -> (forall a b, low' a b == low (pi a) (pi b)) ->
+(** * equivariance under reordering of the taxa — for EVERY index map [pi] (injective or not): no guard on the indices *)
+(** two-way (diagonal kept at 0): needs that the loop body's value vanishes for a cross of a taxon with itself *)
+Lemma mirror_perm (pi : nat -> nat) f m low low' :
+  (forall a b, low a b == low b a) -> (forall a, low a a == 0) -> (forall a b, low' a b == low (pi a) (pi b)) ->
   mirror f m low' == mirror (pi f) (pi m) low.
 Proof.
-  intros Hinj Hsym Hl. unfold mirror.
+  intros Hsym Hz Hl. unfold mirror.
   destruct (Nat.ltb_spec m f), (Nat.ltb_spec f m), (Nat.ltb_spec (pi m) (pi f)), (Nat.ltb_spec (pi f) (pi m)); try lia;
     rewrite ?Hl; try reflexivity; try apply Hsym.
-  all: exfalso; assert (f = m \/ pi f = pi m) as [E|E] by lia; [apply Hinj in E|apply Hinj in E]; lia.
+  all: try (assert (E : pi f = pi m) by lia; rewrite E; apply Hz).
+  all: assert (f = m) by lia; subst m; lia.
+Qed.
+(** three-way / four-way / dihybrid (diagonal computed by the loop body) *)
+Lemma mirror_incl_perm (pi : nat -> nat) f m low low' :
+  (forall a b, low a b == low b a) -> (forall a b, low' a b == low (pi a) (pi b)) ->
+  mirror_incl f m low' == mirror_incl (pi f) (pi m) low.
+Proof.
+  intros Hsym Hl. unfold mirror_incl.
+  destruct (m <=? f)%nat, (pi m <=? pi f)%nat; rewrite Hl; try reflexivity; apply Hsym.
 Qed.
 
 Theorem taxa_equivariant S geno geno1 geno' geno1' (pi : nat -> nat) t1 t2 :
   (forall a, row geno' a = row geno (pi a)) -> (forall a, row geno1' a = row geno1 (pi a)) ->
-  (forall f m, (f = m <-> pi f = pi m) -> twoway_entry S geno' t1 t2 f m == twoway_entry S geno t1 t2 (pi f) (pi m)) /\
-  (forall r f m, (f = m <-> pi f = pi m) -> threeway_entry S geno' t1 t2 r f m == threeway_entry S geno t1 t2 (pi r) (pi f) (pi m)) /\
-  (forall f2 m2 f1 m1, (f1 = m1 <-> pi f1 = pi m1) ->
-     fourway_entry S geno' t1 t2 f2 m2 f1 m1 == fourway_entry S geno t1 t2 (pi f2) (pi m2) (pi f1) (pi m1)) /\
-  (forall f m, (f = m <-> pi f = pi m) -> dihybrid_entry S geno' geno1' t1 t2 f m == dihybrid_entry S geno geno1 t1 t2 (pi f) (pi m)).
+  (forall f m, twoway_entry S geno' t1 t2 f m == twoway_entry S geno t1 t2 (pi f) (pi m)) /\
+  (forall r f m, threeway_entry S geno' t1 t2 r f m == threeway_entry S geno t1 t2 (pi r) (pi f) (pi m)) /\
+  (forall f2 m2 f1 m1, fourway_entry S geno' t1 t2 f2 m2 f1 m1 == fourway_entry S geno t1 t2 (pi f2) (pi m2) (pi f1) (pi m1)) /\
+  (forall f m, dihybrid_entry S geno' geno1' t1 t2 f m == dihybrid_entry S geno geno1 t1 t2 (pi f) (pi m)).
 Proof.
   intros H0 H1. repeat split; intros.
-  - unfold twoway_entry. apply mirror_perm; [assumption | intros; apply twoway_low_sym | intros; now rewrite !H0].
-  - unfold threeway_entry. apply mirror_perm; [assumption | intros; apply threeway_low_sym | intros; now rewrite !H0].
-  - unfold fourway_entry. apply mirror_perm; [assumption | intros; apply quad_low_sym34 | intros; now rewrite !H0].
-  - unfold dihybrid_entry. apply mirror_perm; [assumption | intros; apply quad_low_sym_pairs | intros; now rewrite !H0, !H1].
+  - unfold twoway_entry. apply mirror_perm; [intros; apply twoway_low_sym | intros; apply twoway_low_same | intros; now rewrite !H0].
+  - unfold threeway_entry. apply mirror_incl_perm; [intros; apply threeway_low_sym | intros; now rewrite !H0].
+  - unfold fourway_entry. apply mirror_incl_perm; [intros; apply quad_low_sym34 | intros; now rewrite !H0].
+  - unfold dihybrid_entry. apply mirror_incl_perm; [intros; apply quad_low_sym_pairs | intros; now rewrite !H0, !H1].
 Qed.
